@@ -121,11 +121,11 @@ def handleZone (toks : List String) : Option String :=
       some ((do
         -- date_from_partial(year, month, day, reject) and IsoTime::with(partial, reject)
         let date ← IsoDate.newWithOverflow y m d .reject
-        -- a record of fields always yields a time record: missing fields are midnight
+        -- a record of fields always yields a time record: missing fields are midnight; its offset is matched exactly
         let time ← (match time with
-          | none => pure (some IsoTime.midnight)
-          | some t => do let t ← isoTimeNew t.hour t.minute t.second t.millisecond t.microsecond t.nanosecond .reject; pure (some t) : Out (Option IsoTime))
-        interpretOffset date time false off tz dis oo : Out Int).render toString)
+          | none => pure IsoTime.midnight
+          | some t => isoTimeNew t.hour t.minute t.second t.millisecond t.microsecond t.nanosecond .reject : Out IsoTime)
+        interpretOffsetExact date time off tz dis oo : Out Int).render toString)
     | _ => none
   | "tz_str" :: z :: y :: m :: d :: rest => do
     let tz ← zone? z; let y ← int? y; let m ← int? m; let d ← int? d
